@@ -136,29 +136,30 @@ macro_rules! c16_scalar {
                 let r: $t = s.$t();
                 let e_eq = l == r;
                 let e_cmp = Ord::cmp(&l, &r);
-                chk!(s, pc::$cmp(l, r) == e_cmp, "C16.cmp_scalar.eq_ord");
-                chk!(s, const_eq!(l, r) == e_eq, "C16.const_eq.scalar");
-                chk!(s, const_cmp!(l, r) == e_cmp, "C16.const_cmp.scalar");
-                chk!(s, const_eq!(&l, &r) == e_eq, "C16.const_eq.ref_scalar");
-                chk!(s, const_cmp!(&l, &r) == e_cmp, "C16.const_cmp.ref_scalar");
                 let lo: Option<$t> = opt(s, l);
                 let ro: Option<$t> = opt(s, r);
                 let o_eq = lo == ro;
                 let o_cmp = Ord::cmp(&lo, &ro);
-                chk!(s, pc::$eqo(lo, ro) == o_eq, "C16.eq_option_scalar.eq_std");
-                chk!(s, pc::$cmpo(lo, ro) == o_cmp, "C16.cmp_option_scalar.eq_ord");
-                chk!(s, const_eq!(lo, ro) == o_eq, "C16.const_eq.option_scalar");
-                chk!(s, const_cmp!(lo, ro) == o_cmp, "C16.const_cmp.option_scalar");
-                chk!(s, const_eq_for!(option; lo, ro) == o_eq, "C16.const_eq_for.option_default");
-                chk!(s, const_cmp_for!(option; lo, ro) == o_cmp, "C16.const_cmp_for.option_default");
-                chk!(s, const_eq_for!(option; lo, ro, |a, b| *a == *b) == o_eq, "C16.const_eq_for.option_closure2");
-                chk!(s, const_cmp_for!(option; lo, ro, |a, b| pc::$cmp(*a, *b)) == o_cmp, "C16.const_cmp_for.option_closure2");
-                chk!(s, const_eq_for!(option; lo, ro, |a| *a) == o_eq, "C16.const_eq_for.option_key");
-                chk!(s, const_cmp_for!(option; lo, ro, |a| *a) == o_cmp, "C16.const_cmp_for.option_key");
+                // witnesses first: a failed obligation cuts the paths behind it (Kani: assert, then assume)
                 cov!(s, e_cmp == Less && o_cmp == Greater, "C16.cover.scalar_less_but_option_greater");
                 cov!(s, e_cmp == Greater && lo.is_some() && ro.is_some(), "C16.cover.scalar_greater_some_some");
                 cov!(s, e_eq && lo.is_none() && ro.is_some(), "C16.cover.scalar_eq_none_some");
                 cov!(s, l == $min && r == $max, "C16.cover.scalar_min_max");
+                chk!(s, const_eq!(l, r) == e_eq, "C16.const_eq.scalar");
+                chk!(s, const_eq!(&l, &r) == e_eq, "C16.const_eq.ref_scalar");
+                chk!(s, pc::$eqo(lo, ro) == o_eq, "C16.eq_option_scalar.eq_std");
+                chk!(s, const_eq!(lo, ro) == o_eq, "C16.const_eq.option_scalar");
+                chk!(s, const_eq_for!(option; lo, ro) == o_eq, "C16.const_eq_for.option_default");
+                chk!(s, const_eq_for!(option; lo, ro, |a, b| *a == *b) == o_eq, "C16.const_eq_for.option_closure2");
+                chk!(s, const_eq_for!(option; lo, ro, |a| *a) == o_eq, "C16.const_eq_for.option_key");
+                chk!(s, pc::$cmp(l, r) == e_cmp, "C16.cmp_scalar.eq_ord");
+                chk!(s, const_cmp!(l, r) == e_cmp, "C16.const_cmp.scalar");
+                chk!(s, const_cmp!(&l, &r) == e_cmp, "C16.const_cmp.ref_scalar");
+                chk!(s, pc::$cmpo(lo, ro) == o_cmp, "C16.cmp_option_scalar.eq_ord");
+                chk!(s, const_cmp!(lo, ro) == o_cmp, "C16.const_cmp.option_scalar");
+                chk!(s, const_cmp_for!(option; lo, ro) == o_cmp, "C16.const_cmp_for.option_default");
+                chk!(s, const_cmp_for!(option; lo, ro, |a, b| pc::$cmp(*a, *b)) == o_cmp, "C16.const_cmp_for.option_closure2");
+                chk!(s, const_cmp_for!(option; lo, ro, |a| *a) == o_cmp, "C16.const_cmp_for.option_key");
             }
         }
     };
@@ -176,7 +177,6 @@ c16_scalar! {c16_scalar_i32, i32, cmp_i32, eq_option_i32, cmp_option_i32, i32::M
 c16_scalar! {c16_scalar_i64, i64, cmp_i64, eq_option_i64, cmp_option_i64, i64::MIN, i64::MAX}
 c16_scalar! {c16_scalar_i128, i128, cmp_i128, eq_option_i128, cmp_option_i128, i128::MIN, i128::MAX}
 c16_scalar! {c16_scalar_isize, isize, cmp_isize, eq_option_isize, cmp_option_isize, isize::MIN, isize::MAX}
-c16_scalar! {c16_scalar_bool, bool, cmp_bool, eq_option_bool, cmp_option_bool, false, true}
 c16_scalar! {c16_scalar_char, char, cmp_char, eq_option_char, cmp_option_char, '\0', char::MAX}
 
 // ---------------------------------------------------------------------------
@@ -323,29 +323,32 @@ macro_rules! c16_slice {
                 let r: &[$t] = &ra[..rl];
                 let e_eq = ref_eq(l, r);
                 let e_cmp = ref_lex_cmp(l, r);
-                let k_eq: bool = $eq(l, r);
-                let k_cmp: Ordering = $cmp(l, r);
-                chk!(s, k_eq == e_eq, "C16.eq_slice.eq_std");
-                chk!(s, k_cmp == e_cmp, "C16.cmp_slice.eq_ord");
-                chk!(s, (k_cmp == Equal) == k_eq, "C16.cmp_slice.equal_iff_eq");
-                chk!(s, const_eq!(l, r) == e_eq, "C16.const_eq.slice");
-                chk!(s, const_cmp!(l, r) == e_cmp, "C16.const_cmp.slice");
-                // arrays coerce to slices
-                chk!(s, const_eq!(la, ra) == ref_eq(&la, &ra), "C16.const_eq.array");
-                chk!(s, const_cmp!(la, ra) == ref_lex_cmp(&la, &ra), "C16.const_cmp.array");
                 let lo: Option<&[$t]> = opt(s, l);
                 let ro: Option<&[$t]> = opt(s, r);
                 let o_eq = ref_opt_eq(lo, ro, |a, b| ref_eq(a, b));
                 let o_cmp = ref_opt_cmp(lo, ro, |a, b| ref_lex_cmp(a, b));
-                chk!(s, $eqo(lo, ro) == o_eq, "C16.eq_option_slice.eq_std");
-                chk!(s, $cmpo(lo, ro) == o_cmp, "C16.cmp_option_slice.eq_ord");
-                chk!(s, const_eq!(lo, ro) == o_eq, "C16.const_eq.option_slice");
-                chk!(s, const_cmp!(lo, ro) == o_cmp, "C16.const_cmp.option_slice");
+                // witnesses first: a failed obligation cuts the paths behind it (Kani: assert, then assume)
                 cov!(s, ll == 1 && rl == 2 && la[0] > ra[0], "C16.cover.slice_shorter_with_larger_first");
                 cov!(s, ll == 3 && rl == 2 && la[0] == ra[0] && la[1] < ra[1], "C16.cover.slice_longer_but_less");
                 cov!(s, ll == 2 && rl == 3 && e_cmp == Less && la[0] == ra[0] && la[1] == ra[1], "C16.cover.slice_proper_prefix");
                 cov!(s, ll == 3 && e_eq, "C16.cover.slice_equal_len3");
                 cov!(s, ll == 0 && rl == 0 && lo.is_some() && ro.is_none(), "C16.cover.slice_empty_some_vs_none");
+                // every obligation is checked on its own selector value, so that a failing one does not mask the others
+                let sel = s.upto(10);
+                let k_eq: bool = $eq(l, r);
+                let k_cmp: Ordering = $cmp(l, r);
+                chk!(s, sel != 0 || (k_eq == e_eq), "C16.eq_slice.eq_std");
+                chk!(s, sel != 1 || (const_eq!(l, r) == e_eq), "C16.const_eq.slice");
+                // arrays coerce to slices
+                chk!(s, sel != 2 || (const_eq!(la, ra) == ref_eq(&la, &ra)), "C16.const_eq.array");
+                chk!(s, sel != 3 || ($eqo(lo, ro) == o_eq), "C16.eq_option_slice.eq_std");
+                chk!(s, sel != 4 || (const_eq!(lo, ro) == o_eq), "C16.const_eq.option_slice");
+                chk!(s, sel != 5 || ((k_cmp == Equal) == k_eq), "C16.cmp_slice.equal_iff_eq");
+                chk!(s, sel != 6 || (k_cmp == e_cmp), "C16.cmp_slice.eq_ord");
+                chk!(s, sel != 7 || (const_cmp!(l, r) == e_cmp), "C16.const_cmp.slice");
+                chk!(s, sel != 8 || (const_cmp!(la, ra) == ref_lex_cmp(&la, &ra)), "C16.const_cmp.array");
+                chk!(s, sel != 9 || ($cmpo(lo, ro) == o_cmp), "C16.cmp_option_slice.eq_ord");
+                chk!(s, sel != 10 || (const_cmp!(lo, ro) == o_cmp), "C16.const_cmp.option_slice");
             }
         }
     };
@@ -364,8 +367,129 @@ c16_slice! {c16_slice_i32, i32, konst::slice::cmp::eq_slice_i32, konst::slice::c
 c16_slice! {c16_slice_i64, i64, konst::slice::cmp::eq_slice_i64, konst::slice::cmp::cmp_slice_i64, konst::slice::cmp::eq_option_slice_i64, konst::slice::cmp::cmp_option_slice_i64}
 c16_slice! {c16_slice_i128, i128, konst::slice::cmp::eq_slice_i128, konst::slice::cmp::cmp_slice_i128, konst::slice::cmp::eq_option_slice_i128, konst::slice::cmp::cmp_option_slice_i128}
 c16_slice! {c16_slice_isize, isize, konst::slice::cmp::eq_slice_isize, konst::slice::cmp::cmp_slice_isize, konst::slice::cmp::eq_option_slice_isize, konst::slice::cmp::cmp_option_slice_isize}
-c16_slice! {c16_slice_bool, bool, konst::slice::cmp::eq_slice_bool, konst::slice::cmp::cmp_slice_bool, konst::slice::cmp::eq_option_slice_bool, konst::slice::cmp::cmp_option_slice_bool}
 c16_slice! {c16_slice_char, char, konst::slice::cmp::eq_slice_char, konst::slice::cmp::cmp_slice_char, konst::slice::cmp::eq_option_slice_char, konst::slice::cmp::cmp_option_slice_char}
+
+// ---------------------------------------------------------------------------
+// bool: enumerated concretely.  Kani 0.68 mis-encodes `<`/`>` on *symbolic* bool operands
+// (`false < true` is refutable), which konst's `cmp_int!`/`__priv_ret_if_ne!` use; on concrete
+// operands the comparison is constant-folded correctly, and the domain is small enough to enumerate.
+
+const BOOLS: [bool; 2] = [false, true];
+const OPT_BOOLS: [Option<bool>; 3] = [None, Some(false), Some(true)];
+
+harness! {
+    /// kind=complete tier=quick bound="none: all 2x2 bool pairs and all 3x3 Option<bool> pairs, enumerated (the only symbolic input selects the obligation)"
+    fn c16_scalar_bool(s) {
+        use konst::primitive::cmp as pc;
+        // ok[k]: obligation k held on every pair so far
+        let mut ok = [true; 11];
+        let mut i = 0;
+        while i < 2 {
+            let mut j = 0;
+            while j < 2 {
+                let (l, r) = (BOOLS[i], BOOLS[j]);
+                let e_eq = l == r;
+                let e_cmp = Ord::cmp(&l, &r);
+                ok[0] &= const_eq!(l, r) == e_eq;
+                ok[1] &= const_eq!(&l, &r) == e_eq;
+                ok[2] &= pc::cmp_bool(l, r) == e_cmp;
+                ok[3] &= const_cmp!(l, r) == e_cmp;
+                ok[4] &= const_cmp!(&l, &r) == e_cmp;
+                j += 1;
+            }
+            i += 1;
+        }
+        let mut i = 0;
+        while i < 3 {
+            let mut j = 0;
+            while j < 3 {
+                let (lo, ro) = (OPT_BOOLS[i], OPT_BOOLS[j]);
+                let o_eq = lo == ro;
+                let o_cmp = Ord::cmp(&lo, &ro);
+                ok[5] &= pc::eq_option_bool(lo, ro) == o_eq;
+                ok[6] &= const_eq!(lo, ro) == o_eq;
+                ok[7] &= const_eq_for!(option; lo, ro) == o_eq;
+                ok[8] &= pc::cmp_option_bool(lo, ro) == o_cmp;
+                ok[9] &= const_cmp!(lo, ro) == o_cmp;
+                ok[10] &= const_cmp_for!(option; lo, ro) == o_cmp;
+                j += 1;
+            }
+            i += 1;
+        }
+        cov!(s, Ord::cmp(&BOOLS[0], &BOOLS[1]) == Less && Ord::cmp(&OPT_BOOLS[2], &OPT_BOOLS[0]) == Greater, "C16.cover.bool_enumeration_done");
+        // every obligation on its own selector value, so that a failing one does not mask the others
+        let sel = s.upto(10);
+        chk!(s, sel != 0 || ok[0], "C16.const_eq.bool");
+        chk!(s, sel != 1 || ok[1], "C16.const_eq.ref_bool");
+        chk!(s, sel != 2 || ok[2], "C16.cmp_bool.eq_ord");
+        chk!(s, sel != 3 || ok[3], "C16.const_cmp.bool");
+        chk!(s, sel != 4 || ok[4], "C16.const_cmp.ref_bool");
+        chk!(s, sel != 5 || ok[5], "C16.eq_option_bool.eq_std");
+        chk!(s, sel != 6 || ok[6], "C16.const_eq.option_bool");
+        chk!(s, sel != 7 || ok[7], "C16.const_eq_for.option_bool");
+        chk!(s, sel != 8 || ok[8], "C16.cmp_option_bool.eq_ord");
+        chk!(s, sel != 9 || ok[9], "C16.const_cmp.option_bool");
+        chk!(s, sel != 10 || ok[10], "C16.const_cmp_for.option_bool");
+    }
+}
+
+fn bool_slice(bits: usize) -> [bool; 3] {
+    [bits & 1 != 0, bits & 2 != 0, bits & 4 != 0]
+}
+
+harness! {
+    /// kind=bounded tier=quick bound="every pair of bool slices of len<=3 (15 x 15 pairs, all length combinations), enumerated (the only symbolic input selects the obligation); Option forms on (Some, Some) per pair and on the None combinations once"
+    fn c16_slice_bool(s) {
+        use konst::slice::cmp as sc;
+        // ok[k]: obligation k held on every pair so far
+        let mut ok = [true; 9];
+        let mut ll = 0;
+        while ll <= 3 {
+            let mut rl = 0;
+            while rl <= 3 {
+                let mut lbits = 0;
+                while lbits < (1usize << ll) {
+                    let mut rbits = 0;
+                    while rbits < (1usize << rl) {
+                        let (la, ra) = (bool_slice(lbits), bool_slice(rbits));
+                        let l: &[bool] = &la[..ll];
+                        let r: &[bool] = &ra[..rl];
+                        let e_eq = ref_eq(l, r);
+                        let e_cmp = ref_lex_cmp(l, r);
+                        let k_eq = sc::eq_slice_bool(l, r);
+                        let k_cmp = sc::cmp_slice_bool(l, r);
+                        ok[0] &= k_eq == e_eq;
+                        ok[1] &= const_eq!(l, r) == e_eq;
+                        ok[2] &= sc::eq_option_slice_bool(Some(l), Some(r)) == e_eq;
+                        ok[3] &= (k_cmp == Equal) == k_eq;
+                        ok[4] &= k_cmp == e_cmp;
+                        ok[5] &= const_cmp!(l, r) == e_cmp;
+                        ok[6] &= sc::cmp_option_slice_bool(Some(l), Some(r)) == e_cmp;
+                        rbits += 1;
+                    }
+                    lbits += 1;
+                }
+                rl += 1;
+            }
+            ll += 1;
+        }
+        let e: &[bool] = &[];
+        ok[7] = !sc::eq_option_slice_bool(None, Some(e)) && !sc::eq_option_slice_bool(Some(e), None) && sc::eq_option_slice_bool(None, None);
+        ok[8] = sc::cmp_option_slice_bool(None, Some(e)) == Less && sc::cmp_option_slice_bool(Some(e), None) == Greater && sc::cmp_option_slice_bool(None, None) == Equal;
+        cov!(s, ref_lex_cmp(&[true][..], &[false, false][..]) == Greater, "C16.cover.slice_bool_enumeration_done");
+        // every obligation on its own selector value, so that a failing one does not mask the others
+        let sel = s.upto(8);
+        chk!(s, sel != 0 || ok[0], "C16.eq_slice_bool.eq_std");
+        chk!(s, sel != 1 || ok[1], "C16.const_eq.slice_bool");
+        chk!(s, sel != 2 || ok[2], "C16.eq_option_slice_bool.eq_std");
+        chk!(s, sel != 3 || ok[3], "C16.cmp_slice_bool.equal_iff_eq");
+        chk!(s, sel != 4 || ok[4], "C16.cmp_slice_bool.eq_ord");
+        chk!(s, sel != 5 || ok[5], "C16.const_cmp.slice_bool");
+        chk!(s, sel != 6 || ok[6], "C16.cmp_option_slice_bool.eq_ord");
+        chk!(s, sel != 7 || ok[7], "C16.eq_option_slice_bool.none_arms");
+        chk!(s, sel != 8 || ok[8], "C16.cmp_option_slice_bool.none_arms");
+    }
+}
 
 // ---------------------------------------------------------------------------
 // strings
@@ -380,104 +504,122 @@ harness! {
         let (lb, rb) = (l.as_bytes(), r.as_bytes());
         let e_eq = ref_eq(lb, rb);
         let e_cmp = ref_lex_cmp(lb, rb);
-        let k_eq = konst::eq_str(l, r);
-        let k_cmp = konst::cmp_str(l, r);
-        chk!(s, k_eq == e_eq, "C16.eq_str.eq_std");
-        chk!(s, k_cmp == e_cmp, "C16.cmp_str.eq_ord");
-        chk!(s, (k_cmp == Equal) == k_eq, "C16.cmp_str.equal_iff_eq");
-        chk!(s, konst::string::eq_str(l, r) == e_eq && konst::string::cmp_str(l, r) == e_cmp, "C16.string_mod_paths.eq_std");
-        chk!(s, const_eq!(l, r) == e_eq, "C16.const_eq.str");
-        chk!(s, const_cmp!(l, r) == e_cmp, "C16.const_cmp.str");
         let lo: Option<&str> = opt(s, l);
         let ro: Option<&str> = opt(s, r);
         let o_eq = ref_opt_eq(lo, ro, |a, b| ref_eq(a.as_bytes(), b.as_bytes()));
         let o_cmp = ref_opt_cmp(lo, ro, |a, b| ref_lex_cmp(a.as_bytes(), b.as_bytes()));
-        chk!(s, konst::eq_option_str(lo, ro) == o_eq, "C16.eq_option_str.eq_std");
-        chk!(s, konst::cmp_option_str(lo, ro) == o_cmp, "C16.cmp_option_str.eq_ord");
-        chk!(s, const_eq!(lo, ro) == o_eq, "C16.const_eq.option_str");
-        chk!(s, const_cmp!(lo, ro) == o_cmp, "C16.const_cmp.option_str");
         cov!(s, lb.len() == 1 && rb.len() == 2 && lb[0] > rb[0], "C16.cover.str_shorter_with_larger_first");
-        cov!(s, lb.len() == 4 && rb.len() == 3 && e_cmp == Less && lb[0] >= 0xF0, "C16.cover.str_longer_but_less_4byte_char");
+        cov!(s, lb.len() == 4 && rb.len() == 3 && e_cmp == Less && lb[0] >= 0xC2 && rb[0] >= 0xE0, "C16.cover.str_longer_but_less_multibyte");
         cov!(s, lb.len() == 2 && rb.len() == 4 && lb[0] == rb[0] && lb[1] == rb[1], "C16.cover.str_proper_prefix");
         cov!(s, lb.len() == 3 && e_eq && lb[0] >= 0xE0, "C16.cover.str_equal_3byte_char");
+        cov!(s, lb.len() == 4 && e_eq && lb[0] >= 0xF0, "C16.cover.str_equal_4byte_char");
         cov!(s, lo.is_none() && ro.is_some() && rb.len() == 0, "C16.cover.str_none_vs_some_empty");
+        // every obligation is checked on its own selector value, so that a failing one does not mask the others
+        let sel = s.upto(10);
+        let k_eq = konst::eq_str(l, r);
+        let k_cmp = konst::cmp_str(l, r);
+        chk!(s, sel != 0 || (k_eq == e_eq), "C16.eq_str.eq_std");
+        chk!(s, sel != 1 || (konst::string::eq_str(l, r) == e_eq), "C16.string_eq_str.eq_std");
+        chk!(s, sel != 2 || (const_eq!(l, r) == e_eq), "C16.const_eq.str");
+        chk!(s, sel != 3 || (konst::eq_option_str(lo, ro) == o_eq), "C16.eq_option_str.eq_std");
+        chk!(s, sel != 4 || (const_eq!(lo, ro) == o_eq), "C16.const_eq.option_str");
+        chk!(s, sel != 5 || ((k_cmp == Equal) == k_eq), "C16.cmp_str.equal_iff_eq");
+        chk!(s, sel != 6 || (k_cmp == e_cmp), "C16.cmp_str.eq_ord");
+        chk!(s, sel != 7 || (konst::string::cmp_str(l, r) == e_cmp), "C16.string_cmp_str.eq_ord");
+        chk!(s, sel != 8 || (const_cmp!(l, r) == e_cmp), "C16.const_cmp.str");
+        chk!(s, sel != 9 || (konst::cmp_option_str(lo, ro) == o_cmp), "C16.cmp_option_str.eq_ord");
+        chk!(s, sel != 10 || (const_cmp!(lo, ro) == o_cmp), "C16.const_cmp.option_str");
     }
 }
 
 // ---------------------------------------------------------------------------
-// slices of strings / of byte slices
+// slices of strings / of byte slices (equality and ordering in separate harnesses: cost)
 
-harness! {
-    /// kind=bounded tier=quick bound="two slices of <=2 strings each, every string valid UTF-8 of <=2 bytes (all length combinations at both levels); Option operands None/Some"
-    #[kani::unwind(6)]
-    fn c16_slice_str(s) {
-        use konst::slice::cmp as sc;
-        let (a0, a1, b0, b1) = (BStr::<2>::any(s), BStr::<2>::any(s), BStr::<2>::any(s), BStr::<2>::any(s));
-        let la: [&str; 2] = [a0.as_str(), a1.as_str()];
-        let ra: [&str; 2] = [b0.as_str(), b1.as_str()];
-        let ll = s.upto(2);
-        let rl = s.upto(2);
-        let l: &[&str] = &la[..ll];
-        let r: &[&str] = &ra[..rl];
-        let e_eq = ref_eq_by(l, r, ref_str_eq);
-        let e_cmp = ref_lex_cmp_by(l, r, ref_str_cmp);
-        let k_eq = sc::eq_slice_str(l, r);
-        let k_cmp = sc::cmp_slice_str(l, r);
-        chk!(s, k_eq == e_eq, "C16.eq_slice_str.eq_std");
-        chk!(s, k_cmp == e_cmp, "C16.cmp_slice_str.eq_ord");
-        chk!(s, (k_cmp == Equal) == k_eq, "C16.cmp_slice_str.equal_iff_eq");
-        chk!(s, const_eq!(l, r) == e_eq, "C16.const_eq.slice_str");
-        chk!(s, const_cmp!(l, r) == e_cmp, "C16.const_cmp.slice_str");
-        let lo: Option<&[&str]> = opt(s, l);
-        let ro: Option<&[&str]> = opt(s, r);
-        let o_eq = ref_opt_eq(lo, ro, |a, b| ref_eq_by(a, b, ref_str_eq));
-        let o_cmp = ref_opt_cmp(lo, ro, |a, b| ref_lex_cmp_by(a, b, ref_str_cmp));
-        chk!(s, sc::eq_option_slice_str(lo, ro) == o_eq, "C16.eq_option_slice_str.eq_std");
-        chk!(s, sc::cmp_option_slice_str(lo, ro) == o_cmp, "C16.cmp_option_slice_str.eq_ord");
-        chk!(s, const_eq!(lo, ro) == o_eq, "C16.const_eq.option_slice_str");
-        chk!(s, const_cmp!(lo, ro) == o_cmp, "C16.const_cmp.option_slice_str");
-        cov!(s, ll == 1 && rl == 2 && ref_str_cmp(&la[0], &ra[0]) == Greater, "C16.cover.slice_str_shorter_with_larger_first");
-        cov!(s, ll == 2 && rl == 2 && ref_str_eq(&la[0], &ra[0]) && la[1].len() == 1 && ra[1].len() == 2 && e_cmp == Greater, "C16.cover.slice_str_second_decides_inner_short_larger");
-        cov!(s, ll == 2 && e_eq && la[1].len() == 2, "C16.cover.slice_str_equal_len2");
-        cov!(s, ll == 1 && rl == 2 && e_cmp == Less && ref_str_eq(&la[0], &ra[0]), "C16.cover.slice_str_proper_prefix");
-    }
+macro_rules! c16_nested_eq {
+    ($name:ident, $kind:ident, $e:ty, $eq:ident, $eqo:ident, $ref_eq:ident, $ref_cmp:ident) => {
+        harness! {
+            /// kind=bounded tier=quick bound="two slices of <=2 items each, every item a valid UTF-8 string / arbitrary byte slice of <=2 bytes (all length combinations at both levels); Option operands None/Some"
+            #[kani::unwind(6)]
+            fn $name(s) {
+                use konst::slice::cmp as sc;
+                c16_nested_inputs!($kind, s, la, ra);
+                let ll = s.upto(2);
+                let rl = s.upto(2);
+                let l: &[$e] = &la[..ll];
+                let r: &[$e] = &ra[..rl];
+                let e_eq = ref_eq_by(l, r, $ref_eq);
+                let lo: Option<&[$e]> = opt(s, l);
+                let ro: Option<&[$e]> = opt(s, r);
+                let o_eq = ref_opt_eq(lo, ro, |a, b| ref_eq_by(a, b, $ref_eq));
+                cov!(s, ll == 2 && e_eq && la[1].len() == 2, "C16.cover.nested_equal_len2");
+                cov!(s, ll == 2 && rl == 2 && $ref_eq(&la[0], &ra[0]) && la[1].len() == ra[1].len() && !e_eq, "C16.cover.nested_differ_in_last_byte_only");
+                cov!(s, ll == 1 && rl == 2 && $ref_eq(&la[0], &ra[0]), "C16.cover.nested_proper_prefix");
+                cov!(s, lo.is_none() && ro.is_some() && rl == 0, "C16.cover.nested_none_vs_some_empty");
+                // every obligation is checked on its own selector value, so that a failing one does not mask the others
+                let sel = s.upto(3);
+                chk!(s, sel != 0 || (sc::$eq(l, r) == e_eq), "C16.eq_slice_nested.eq_std");
+                chk!(s, sel != 1 || (const_eq!(l, r) == e_eq), "C16.const_eq.slice_nested");
+                chk!(s, sel != 2 || (sc::$eqo(lo, ro) == o_eq), "C16.eq_option_slice_nested.eq_std");
+                chk!(s, sel != 3 || (const_eq!(lo, ro) == o_eq), "C16.const_eq.option_slice_nested");
+            }
+        }
+    };
 }
 
-harness! {
-    /// kind=bounded tier=quick bound="two slices of <=2 byte slices each, every byte slice of <=2 arbitrary bytes (all length combinations at both levels); Option operands None/Some"
-    #[kani::unwind(6)]
-    fn c16_slice_bytes_nested(s) {
-        use konst::slice::cmp as sc;
-        let (a0, a1, b0, b1): ([u8; 2], [u8; 2], [u8; 2], [u8; 2]) = (s.bytes(), s.bytes(), s.bytes(), s.bytes());
-        let (n0, n1, m0, m1) = (s.upto(2), s.upto(2), s.upto(2), s.upto(2));
-        let la: [&[u8]; 2] = [&a0[..n0], &a1[..n1]];
-        let ra: [&[u8]; 2] = [&b0[..m0], &b1[..m1]];
-        let ll = s.upto(2);
-        let rl = s.upto(2);
-        let l: &[&[u8]] = &la[..ll];
-        let r: &[&[u8]] = &ra[..rl];
-        let e_eq = ref_eq_by(l, r, ref_bytes_eq);
-        let e_cmp = ref_lex_cmp_by(l, r, ref_bytes_cmp);
-        let k_eq = sc::eq_slice_bytes(l, r);
-        let k_cmp = sc::cmp_slice_bytes(l, r);
-        chk!(s, k_eq == e_eq, "C16.eq_slice_bytes.eq_std");
-        chk!(s, k_cmp == e_cmp, "C16.cmp_slice_bytes.eq_ord");
-        chk!(s, (k_cmp == Equal) == k_eq, "C16.cmp_slice_bytes.equal_iff_eq");
-        chk!(s, const_eq!(l, r) == e_eq, "C16.const_eq.slice_bytes");
-        chk!(s, const_cmp!(l, r) == e_cmp, "C16.const_cmp.slice_bytes");
-        let lo: Option<&[&[u8]]> = opt(s, l);
-        let ro: Option<&[&[u8]]> = opt(s, r);
-        let o_eq = ref_opt_eq(lo, ro, |a, b| ref_eq_by(a, b, ref_bytes_eq));
-        let o_cmp = ref_opt_cmp(lo, ro, |a, b| ref_lex_cmp_by(a, b, ref_bytes_cmp));
-        chk!(s, sc::eq_option_slice_bytes(lo, ro) == o_eq, "C16.eq_option_slice_bytes.eq_std");
-        chk!(s, sc::cmp_option_slice_bytes(lo, ro) == o_cmp, "C16.cmp_option_slice_bytes.eq_ord");
-        chk!(s, const_eq!(lo, ro) == o_eq, "C16.const_eq.option_slice_bytes");
-        chk!(s, const_cmp!(lo, ro) == o_cmp, "C16.const_cmp.option_slice_bytes");
-        cov!(s, ll == 1 && rl == 2 && ref_bytes_cmp(&la[0], &ra[0]) == Greater, "C16.cover.slice_bytes_shorter_with_larger_first");
-        cov!(s, ll == 2 && rl == 2 && ref_bytes_eq(&la[0], &ra[0]) && n1 == 1 && m1 == 2 && e_cmp == Greater, "C16.cover.slice_bytes_second_decides_inner_short_larger");
-        cov!(s, ll == 2 && e_eq && n1 == 2, "C16.cover.slice_bytes_equal_len2");
-    }
+macro_rules! c16_nested_cmp {
+    ($name:ident, $kind:ident, $e:ty, $eq:ident, $cmp:ident, $cmpo:ident, $ref_eq:ident, $ref_cmp:ident) => {
+        harness! {
+            /// kind=bounded tier=quick bound="two slices of <=2 items each, every item a valid UTF-8 string / arbitrary byte slice of <=2 bytes (all length combinations at both levels); Option operands None/Some"
+            #[kani::unwind(6)]
+            fn $name(s) {
+                use konst::slice::cmp as sc;
+                c16_nested_inputs!($kind, s, la, ra);
+                let ll = s.upto(2);
+                let rl = s.upto(2);
+                let l: &[$e] = &la[..ll];
+                let r: &[$e] = &ra[..rl];
+                let e_cmp = ref_lex_cmp_by(l, r, $ref_cmp);
+                let lo: Option<&[$e]> = opt(s, l);
+                let ro: Option<&[$e]> = opt(s, r);
+                let o_cmp = ref_opt_cmp(lo, ro, |a, b| ref_lex_cmp_by(a, b, $ref_cmp));
+                cov!(s, ll == 1 && rl == 2 && $ref_cmp(&la[0], &ra[0]) == Greater, "C16.cover.nested_shorter_with_larger_first");
+                cov!(s, ll == 2 && rl == 2 && $ref_eq(&la[0], &ra[0]) && la[1].len() == 1 && ra[1].len() == 2 && e_cmp == Greater, "C16.cover.nested_second_decides_inner_short_larger");
+                cov!(s, ll == 1 && rl == 2 && e_cmp == Less && $ref_eq(&la[0], &ra[0]), "C16.cover.nested_cmp_proper_prefix");
+                cov!(s, ll == 2 && e_cmp == Equal && la[1].len() == 2, "C16.cover.nested_cmp_equal_len2");
+                cov!(s, lo.is_some() && ro.is_none() && ll == 0, "C16.cover.nested_some_empty_vs_none");
+                // every obligation is checked on its own selector value, so that a failing one does not mask the others
+                let sel = s.upto(4);
+                let k_cmp = sc::$cmp(l, r);
+                chk!(s, sel != 0 || ((k_cmp == Equal) == sc::$eq(l, r)), "C16.cmp_slice_nested.equal_iff_eq");
+                chk!(s, sel != 1 || (k_cmp == e_cmp), "C16.cmp_slice_nested.eq_ord");
+                chk!(s, sel != 2 || (const_cmp!(l, r) == e_cmp), "C16.const_cmp.slice_nested");
+                chk!(s, sel != 3 || (sc::$cmpo(lo, ro) == o_cmp), "C16.cmp_option_slice_nested.eq_ord");
+                chk!(s, sel != 4 || (const_cmp!(lo, ro) == o_cmp), "C16.const_cmp.option_slice_nested");
+            }
+        }
+    };
 }
+
+// (a helper, not a harness template: parenthesised so that the runner's template scan skips it)
+macro_rules! c16_nested_inputs (
+    (str, $s:ident, $la:ident, $ra:ident) => {
+        let (a0, a1, b0, b1) = (BStr::<2>::any($s), BStr::<2>::any($s), BStr::<2>::any($s), BStr::<2>::any($s));
+        let $la: [&str; 2] = [a0.as_str(), a1.as_str()];
+        let $ra: [&str; 2] = [b0.as_str(), b1.as_str()];
+    };
+    (bytes, $s:ident, $la:ident, $ra:ident) => {
+        let (a0, a1, b0, b1): ([u8; 2], [u8; 2], [u8; 2], [u8; 2]) = ($s.bytes(), $s.bytes(), $s.bytes(), $s.bytes());
+        let (n0, n1, m0, m1) = ($s.upto(2), $s.upto(2), $s.upto(2), $s.upto(2));
+        let $la: [&[u8]; 2] = [&a0[..n0], &a1[..n1]];
+        let $ra: [&[u8]; 2] = [&b0[..m0], &b1[..m1]];
+    };
+);
+
+c16_nested_eq! {c16_slice_str_eq, str, &str, eq_slice_str, eq_option_slice_str, ref_str_eq, ref_str_cmp}
+c16_nested_eq! {c16_slice_bytes_eq, bytes, &[u8], eq_slice_bytes, eq_option_slice_bytes, ref_bytes_eq, ref_bytes_cmp}
+
+c16_nested_cmp! {c16_slice_str_cmp, str, &str, eq_slice_str, cmp_slice_str, cmp_option_slice_str, ref_str_eq, ref_str_cmp}
+c16_nested_cmp! {c16_slice_bytes_cmp, bytes, &[u8], eq_slice_bytes, cmp_slice_bytes, cmp_option_slice_bytes, ref_bytes_eq, ref_bytes_cmp}
 
 // ---------------------------------------------------------------------------
 // const_eq_for!/const_cmp_for!(slice; ..) in all four comparator forms
@@ -494,23 +636,21 @@ harness! {
         let r: &[u8] = &ra[..rl];
         let e_eq = ref_eq(l, r);
         let e_cmp = ref_lex_cmp(l, r);
-        chk!(s, const_eq_for!(slice; l, r) == e_eq, "C16.const_eq_for.slice_default");
-        chk!(s, const_eq_for!(slice; l, r, |a, b| *a == *b) == e_eq, "C16.const_eq_for.slice_closure2");
-        chk!(s, const_eq_for!(slice; l, r, |a| *a) == e_eq, "C16.const_eq_for.slice_key");
-        chk!(s, const_eq_for!(slice; l, r, eq_u8_ref) == e_eq, "C16.const_eq_for.slice_fn");
-        let c_def: Ordering = const_cmp_for!(slice; l, r);
-        let c_clo: Ordering = const_cmp_for!(slice; l, r, |a, b| konst::primitive::cmp::cmp_u8(*a, *b));
-        let c_key: Ordering = const_cmp_for!(slice; l, r, |a| *a);
-        let c_fn: Ordering = const_cmp_for!(slice; l, r, cmp_u8_ref);
-        chk!(s, c_def == e_cmp, "C16.const_cmp_for.slice_default");
-        chk!(s, c_clo == e_cmp, "C16.const_cmp_for.slice_closure2");
-        chk!(s, c_key == e_cmp, "C16.const_cmp_for.slice_key");
-        chk!(s, c_fn == e_cmp, "C16.const_cmp_for.slice_fn");
-        chk!(s, (c_clo == Equal) == e_eq, "C16.const_cmp_for.slice_equal_iff_eq");
         cov!(s, ll == 1 && rl == 2 && la[0] > ra[0], "C16.cover.cmp_for_shorter_with_larger_first");
         cov!(s, ll == 3 && rl == 3 && la[0] == ra[0] && la[1] == ra[1] && la[2] > ra[2], "C16.cover.cmp_for_last_decides");
         cov!(s, ll == 2 && rl == 3 && e_cmp == Less && la[0] == ra[0] && la[1] == ra[1], "C16.cover.cmp_for_proper_prefix");
         cov!(s, ll == 3 && e_eq, "C16.cover.cmp_for_equal_len3");
+        // every obligation is checked on its own selector value, so that a failing one does not mask the others
+        let sel = s.upto(8);
+        chk!(s, sel != 0 || (const_eq_for!(slice; l, r) == e_eq), "C16.const_eq_for.slice_default");
+        chk!(s, sel != 1 || (const_eq_for!(slice; l, r, |a, b| *a == *b) == e_eq), "C16.const_eq_for.slice_closure2");
+        chk!(s, sel != 2 || (const_eq_for!(slice; l, r, |a| *a) == e_eq), "C16.const_eq_for.slice_key");
+        chk!(s, sel != 3 || (const_eq_for!(slice; l, r, eq_u8_ref) == e_eq), "C16.const_eq_for.slice_fn");
+        chk!(s, sel != 4 || ({ let c: Ordering = const_cmp_for!(slice; l, r); c } == e_cmp), "C16.const_cmp_for.slice_default");
+        chk!(s, sel != 5 || ({ let c: Ordering = const_cmp_for!(slice; l, r, |a, b| konst::primitive::cmp::cmp_u8(*a, *b)); c } == e_cmp), "C16.const_cmp_for.slice_closure2");
+        chk!(s, sel != 6 || ({ let c: Ordering = const_cmp_for!(slice; l, r, |a| *a); c } == e_cmp), "C16.const_cmp_for.slice_key");
+        chk!(s, sel != 7 || ({ let c: Ordering = const_cmp_for!(slice; l, r, cmp_u8_ref); c } == e_cmp), "C16.const_cmp_for.slice_fn");
+        chk!(s, sel != 8 || (({ let c: Ordering = const_cmp_for!(slice; l, r, |a, b| konst::primitive::cmp::cmp_u8(*a, *b)); c } == Equal) == e_eq), "C16.const_cmp_for.slice_equal_iff_eq");
     }
 }
 
@@ -518,7 +658,7 @@ harness! {
 // user type through impl_cmp!/try_equal! (the `IsNotStdKind` dispatch of const_eq!/const_cmp!)
 
 #[derive(Copy, Clone, PartialEq, Eq, PartialOrd, Ord)]
-pub struct C16Pair(pub u32, pub Option<bool>);
+pub struct C16Pair(pub u32, pub Option<i8>);
 
 impl_cmp! {
     impl C16Pair;
@@ -533,9 +673,9 @@ impl_cmp! {
 }
 
 harness! {
-    /// kind=complete tier=quick bound="none: a (u32, Option<bool>) struct with field-wise const_eq/const_cmp written with const_eq!/const_cmp!/try_equal!, both operands over the full domain"
+    /// kind=complete tier=quick bound="none: a (u32, Option<i8>) struct with field-wise const_eq/const_cmp written with const_eq!/const_cmp!/try_equal!, both operands over the full domain"
     fn c16_impl_cmp(s) {
-        let (lb, rb) = (s.bool(), s.bool());
+        let (lb, rb) = (s.i8(), s.i8());
         let l = C16Pair(s.u32(), opt(s, lb));
         let r = C16Pair(s.u32(), opt(s, rb));
         chk!(s, const_eq!(l, r) == (l == r), "C16.const_eq.impl_cmp_type");
@@ -544,7 +684,7 @@ harness! {
         let (lo, ro) = (Some(l), opt(s, r));
         chk!(s, const_eq_for!(option; lo, ro) == (lo == ro), "C16.const_eq_for.option_impl_cmp_type");
         chk!(s, const_cmp_for!(option; lo, ro) == Ord::cmp(&lo, &ro), "C16.const_cmp_for.option_impl_cmp_type");
-        cov!(s, l.0 == r.0 && l.1 == Some(true) && r.1 == Some(false), "C16.cover.impl_cmp_second_field_decides");
+        cov!(s, l.0 == r.0 && l.1 == Some(1) && r.1 == Some(-1), "C16.cover.impl_cmp_second_field_decides");
         cov!(s, l.0 > r.0 && l.1.is_none() && r.1.is_some(), "C16.cover.impl_cmp_first_field_decides");
         cov!(s, l == r, "C16.cover.impl_cmp_equal");
     }
